@@ -296,6 +296,38 @@ func lockStressEngine(rng *Rng, n int, out *Out, args map[string]string) {
 			}
 		}()
 	}
+	// clients: connections and datagrams keep arriving on the addresses while handles come and go, so
+	// that a last Close finds the accept loop holding a connection nobody has taken (and a read loop
+	// holding a datagram); nobody ever calls Accept/ReadFrom here
+	var clientOps int64
+	for cl := 0; cl < 3; cl++ {
+		seed := rng.U64()
+		go func() {
+			r := NewRng(seed)
+			for {
+				select {
+				case <-stop:
+					return
+				default:
+				}
+				a := addrs[r.Intn(3)]
+				if r.Bool() {
+					if c, err := net.DialTimeout("tcp", a, 20*time.Millisecond); err == nil {
+						atomic.AddInt64(&clientOps, 1)
+						if r.Bool() {
+							time.Sleep(time.Duration(r.Intn(300)) * time.Microsecond)
+						}
+						c.Close()
+					}
+				} else if c, err := net.Dial("udp", a); err == nil {
+					c.Write([]byte("x"))
+					atomic.AddInt64(&clientOps, 1)
+					c.Close()
+				}
+				time.Sleep(time.Duration(r.Intn(200)) * time.Microsecond)
+			}
+		}()
+	}
 	go func() { wg.Wait(); close(done) }()
 	dur := time.Duration(n) * 20 * time.Millisecond
 	time.Sleep(dur)
@@ -354,4 +386,5 @@ func lockStressEngine(rng *Rng, n int, out *Out, args map[string]string) {
 	}
 	out.Op("locks stress", fmt.Sprintf("completed=%v usable=%v", !hung, usable))
 	out.Stat("lockstress.ops", int(ops))
+	out.Stat("lockstress.client-arrivals", int(atomic.LoadInt64(&clientOps)))
 }
